@@ -118,6 +118,9 @@ class Hist:
 			self.w = None
 		else:
 			self.w = W.sequence_world(rng, ng=rng.randint(3, 7), nq=4, names='plain')
+			# released databases match signatures by accession: use every identifier attribute, not only the key
+			self.w.id_attr = rng.choice(['key', 'genbank_acc', 'refseq_acc', 'ncbi_id'])
+			ctx.count(f'id_attr:{self.w.id_attr}')
 			self.db = self.w.write_db(self.dir / 'db')
 			self.k, self.prefix = self.w.k, self.w.prefix
 			from vf.oracles.fasta import write_fasta
@@ -247,6 +250,35 @@ class Hist:
 		self.ctx.count('orm_edit_steps')
 		return 'orm: ' + ','.join(did)
 
+	def step_taxonomy_reads(self):
+		"""Read-side ORM use of the taxonomy and of accession look-ups (index-statistics consulting queries), sessions closed and collected."""
+		import gc
+		from gambit.db import ReferenceDatabase
+		from gambit.db.refdb import load_genomeset, genomes_by_id
+		from gambit.db.models import Taxon, Genome, AnnotatedGenome
+		db = ReferenceDatabase.load_from_dir(self.db)
+		try:
+			gs = db.genomeset
+			roots = list(gs.root_taxa())
+			for t in roots:
+				list(t.descendants()); [list(x.genomes) for x in t.traverse()]; t.lineage(); list(t.leaves())
+			db.session.query(Genome).filter(Genome.genbank_acc.like('GCA%')).count()
+			db.session.query(Genome).filter_by(refseq_acc='GCF_000001.1').all()
+			db.session.query(AnnotatedGenome).join(Genome).filter(Genome.ncbi_id > 0).order_by(Genome.key).all()
+			db.session.query(Taxon).filter(Taxon.name.like('%a%'), Taxon.rank == 'species').all()
+			for attr in ('genbank_acc', 'refseq_acc', 'ncbi_id', 'key'):
+				try:
+					genomes_by_id(gs, attr, [getattr(g.genome, attr) for g in db.genomes][:3])
+				except Exception:
+					pass
+		finally:
+			db.signatures.close(); db.session.close()
+		s2, gs2 = load_genomeset(next(p for p in self.db.iterdir() if p.suffix in ('.gdb', '.db')))
+		list(gs2.taxa); s2.close()
+		del db, s2, gs2
+		gc.collect()
+		return 'library: taxonomy traversal + accession look-ups, sessions closed and garbage-collected'
+
 	def step_explicit_writable_maker(self):
 		"""An explicitly writable session maker is requested (and only used for reading). Later *default* sessions must still refuse."""
 		from sqlalchemy.orm import Session
@@ -323,7 +355,7 @@ class Hist:
 		return f'two console-script queries at once -> {res}'
 
 
-STEP_WEIGHTS = [('query_files', 5), ('query_sigs', 3), ('sigs_create', 2), ('dist_usedb', 3), ('info', 3), ('tree', 1), ('fail', 5), ('library', 3), ('orm', 4), ('cli_session', 2), ('concurrent', 1), ('explicit_writable_maker', 3), ('default_session_direct', 3)]
+STEP_WEIGHTS = [('query_files', 5), ('query_sigs', 3), ('sigs_create', 2), ('dist_usedb', 3), ('info', 3), ('tree', 1), ('fail', 5), ('library', 3), ('orm', 4), ('cli_session', 2), ('concurrent', 1), ('explicit_writable_maker', 3), ('default_session_direct', 3), ('taxonomy_reads', 4)]
 
 
 def run_hist(sh, ctx):
@@ -435,7 +467,7 @@ def run_shard(sh, ctx):
 
 def finalize(merged, tier, seed, inconclusive):
 	c = merged['counters']
-	need = ['histories', 'step:query_files', 'step:query_sigs', 'step:dist_usedb', 'step:info', 'step:fail', 'step:library', 'step:orm', 'step:cli_session', 'step:explicit_writable_maker', 'step:default_session_direct', 'failing_commands', 'commit_refused', 'orm_edit_steps',
+	need = ['histories', 'step:query_files', 'step:query_sigs', 'step:dist_usedb', 'step:info', 'step:fail', 'step:library', 'step:orm', 'step:cli_session', 'step:explicit_writable_maker', 'step:default_session_direct', 'step:taxonomy_reads', 'failing_commands', 'commit_refused', 'orm_edit_steps',
 	        'sql:SELECT', 'straced_commands', 'syscall:open:O_RDONLY']
 	for n in need:
 		if c.get(n, 0) == 0:
